@@ -50,7 +50,7 @@ class C16Machine(Machine):
            "cell_with_sep", "cell_with_quote", "cell_with_newline", "cell_with_cr", "ambiguous_cell_both",
            "target_column_last", "str_path", "pd_target_column", "later_row_also_fails",
            "result_missing_empty_cell", "target_cell_changed", "pd_missing_is_na", "pd_strict_raised",
-           "zero_rows", "fault_in_other_column", "ambiguous_mode_converted_cell"]
+           "zero_rows", "fault_in_other_column", "ambiguous_mode_converted_cell", "file_larger_than_8k", "table_ge_40_rows"]
     )
 
     @classmethod
@@ -76,6 +76,12 @@ class C16Machine(Machine):
             "n_pd": rng.choice([0, 1, 2]),
             "fault_kinds": rng.sample(FAULT_KINDS, rng.randint(1, len(FAULT_KINDS))),
         }
+        if rng.random() < (0.03 if tier == "quick" else 0.06):
+            # rare large table: crosses the 8 KiB text-buffer size and any plausible chunk size
+            cfg["large"] = True
+            cfg["n_rows"] = rng.choice([40, 70, 150])
+            cfg["max_ops"] = cfg["n_rows"] + 8
+            cfg["width"] = max(cfg["width"], 2)
         cfg["column"] = rng.randrange(cfg["width"])
         return cfg
 
@@ -158,7 +164,10 @@ class C16Machine(Machine):
                     cls_ = rng.choice(["canon", "canon", "syn", "unknown", "both", "empty", "nodelim", "other_kind"])
                     row.append(self._cell(rng, func, cls_))
                 else:
-                    row.append(rng.choice(NASTY) if rng.random() < cfg["p_nasty"] else "v" + str(rng.randint(0, 9)))
+                    cell = rng.choice(NASTY) if rng.random() < cfg["p_nasty"] else "v" + str(rng.randint(0, 9))
+                    if cfg.get("large"):
+                        cell += "." * 70      # make the file cross the 8 KiB text buffer
+                    row.append(cell)
             rows.append(row)
         hdr = None
         if cfg["header"]:
@@ -391,6 +400,10 @@ class C16Machine(Machine):
             self.probe("str_path")
         if not rows:
             self.probe("zero_rows")
+        if len(before) > 8192:
+            self.probe("file_larger_than_8k")
+        if len(rows) >= 40:
+            self.probe("table_ge_40_rows")
         fault = op.get("fault")
 
         if err is not None:
